@@ -1277,7 +1277,10 @@ def handle_map(ctx, cfg, req, cb, resp, status, rec, up_map, tree, names, extent
                              % (x, y, got, bg), rep)
                     return
                 # content is kept well inside: a single opaque, fully visible source
-                if len(ents) == 1 and solid_src is not None and all(v == 'in' for v in dcls.values()):
+                wb_ = WORLD[q_srs]
+                X_, Y_ = q_bbox[0] + (x + 0.5) * pw, q_bbox[3] - (y + 0.5) * ph
+                in_world = wb_[0] + 2 * pw < X_ < wb_[2] - 2 * pw and wb_[1] + 2 * ph < Y_ < wb_[3] - 2 * ph
+                if len(ents) == 1 and solid_src is not None and in_world and all(v == 'in' for v in dcls.values()):
                     if got[3] != 255 or max(abs(a - b) for a, b in zip(got[:3], color_of(solid_src))) > solid_tol:
                         ctx.fail('map,content-lost-inside', 'pixel (%d,%d) lies well inside every geometry that applies but is %r, '
                                  'the upstream colour is %r' % (x, y, got, color_of(solid_src)), rep)
